@@ -68,7 +68,7 @@ def run(ctx):
                         writes.append((bid, i, e, n))
         ctx.need("R11.1", "writes of given_ in toggle::update_value", len(writes), 3)
         is_w = lambda e: any(e is w[2] for w in writes)
-        ok, path = cfg.must_happen_before_exit(uv, is_w)
+        ok, path = cfg.must_happen_before_exit(uv, is_w, edge_ok=one_letter_edge_ok(ctx, uv, pname))
         ctx.check(ok, "R11.1", uv, "counts-on-every-path", "a path through update_value (B%s) accepts the token without changing the count" % "->B".join(map(str, path or [])), uv)
         for (bid, i, e, n) in writes:
             p = cfg.reaches_without(uv, (bid, i), is_w, lambda e: False)
@@ -82,7 +82,7 @@ def run(ctx):
                 desc = "on the --no- branch the count must be set to 0, found %s" % fmt(n)
             elif ent(Not(has_prefix)) and ent(is_short):
                 branch = "short"
-                want = form[0] == "add" and _is_multiplicity(form[1], pname)
+                want = form[0] == "add" and _is_multiplicity(form[1], pname, uv)
                 desc = "for a short token the count must grow by the letter's multiplicity as_short_list().count(short_name()), found %s" % fmt(n)
             elif ent(Not(has_prefix)) and ent(Not(is_short)):
                 branch = "long"
@@ -299,14 +299,84 @@ def _write_form(n):
     return ("other", n.get("k"))
 
 
-def _is_multiplicity(rhs, pname):
+def _const_local_init(fn, n):
+    """n names a const / const-reference local with one declaration: its initialiser (the local is just a name for it)"""
+    n = ir.unwrap(n)
+    if isinstance(n, dict) and n.get("k") == "ref" and str(n.get("decl", "")).startswith("local:"):
+        nm = n["decl"][6:]
+        ds = [v for _, _, e in fn.roots() if e["expr"].get("k") == "decl" for v in e["expr"].get("vars", []) if v["name"] == nm]
+        if len(ds) == 1 and (ds[0].get("type") or "").startswith("const ") and ds[0].get("init") is not None:
+            return ir.unwrap(ds[0]["init"])
+    return n
+
+
+def _is_multiplicity(rhs, pname, fn=None):
     r = ir.unwrap(rhs)
     if not isinstance(r, dict):
         return False
-    if r.get("k") == "cast":
+    while r.get("k") == "cast":
         r = ir.unwrap(r["e"])
     s = fmt(r)
-    return s in ("%s.as_short_list().count(short_name())" % pname, "%s.as_short_list().count(short_)" % pname)
+    if s in ("%s.as_short_list().count(short_name())" % pname, "%s.as_short_list().count(short_)" % pname):
+        return True
+    # the same number taken from the token's text: std::count over the characters behind the dash of the letter's one character
+    # (as_short_list() holds exactly these characters, one entry each: R01.10)
+    if r.get("k") == "call" and short(r.get("name") or "") == "count" and r.get("this") is None and len(r.get("args", [])) == 3 and fn is not None:
+        a0, a1, a2 = [ir.unwrap(x) for x in r["args"]]
+        text = ("%s.name()" % pname, "%s.name_" % pname)
+
+        def txt(x):
+            x = _const_local_init(fn, x)
+            return fmt(x)
+        bo = ir.as_binop(a0)
+        first = bool(bo) and bo[0] == "+" and fmt(ir.unwrap(bo[2])) == "1" \
+            and isinstance(ir.unwrap(bo[1]), dict) and short(ir.unwrap(bo[1]).get("name") or "") in ("begin", "cbegin") and txt(ir.unwrap(bo[1]).get("this")) in text
+        last = isinstance(a1, dict) and short(a1.get("name") or "") in ("end", "cend") and txt(a1.get("this")) in text
+        letter = False
+        if isinstance(a2, dict) and a2.get("k") == "subscript" and fmt(ir.unwrap(a2.get("idx"))) == "0":
+            letter = txt(a2.get("base")) in ("short_name()", "short_", "this->short_")
+        elif isinstance(a2, dict) and a2.get("k") == "call" and short(a2.get("name") or "") in ("front", "operator[]"):
+            letter = txt(a2.get("this")) in ("short_name()", "short_", "this->short_") and (short(a2.get("name") or "") == "front" or fmt(ir.unwrap(a2["args"][0])) == "0")
+        return first and last and letter
+    return False
+
+
+def one_letter_edge_ok(ctx, uv, pname):
+    """edge filter for path rules over toggle::update_value: for a short token the branch `short_name().size() == 1` cannot be false.
+    Checked premises: every caller in the library reaches update_value(tok) only under matches(tok) (for a short token that is
+    base::matches' letter branch, entered under has_short_name()); the stored letter is empty or one character (R13.3: the
+    guarded setter is its only writer). The filter only applies under `tok.is_short()`."""
+    prog = ctx.prog
+    cg = callgraph(ctx)
+    for cid in cg.callers(uv.id):
+        c = prog.fn(cid)
+        if c is None or not c.has_cfg or not c.file.startswith("/repo/"):
+            continue
+        for b, i, e in c.roots():
+            for n in walk(e["expr"]):
+                if n.get("k") == "call" and n.get("callee") == uv.id or (n.get("k") == "call" and uv.id in (n.get("reaches") or [])):
+                    if not cfg.dominated_by_edge(c, b, lambda cnd: ir.unwrap(cnd).get("k") == "call" and short(ir.unwrap(cnd).get("name") or "") == "matches"):
+                        return None
+
+    def edge_ok(b, to, lab):
+        cnd = uv.term(b).get("cond")
+        if cnd is None:
+            return True
+        c2, neg = cfg.strip_not(cnd)
+        bo = ir.as_binop(ir.unwrap(c2))
+        if not bo or bo[0] not in ("==", "!="):
+            return True
+        sides = [ir.unwrap(bo[1]), ir.unwrap(bo[2])]
+        one = [x for x in sides if fmt(x) == "1"]
+        sz = [x for x in sides if isinstance(x, dict) and x.get("k") == "call" and short(x.get("name") or "") in ("size", "length")
+              and fmt(_const_local_init(uv, x.get("this"))) in ("short_name()", "short_", "this->short_")]
+        if len(one) != 1 or len(sz) != 1:
+            return True
+        if not cfg.dominated_by_edge(uv, b, lambda cnd2: fmt(ir.unwrap(cnd2)) == "%s.is_short()" % pname):
+            return True
+        holds_lab = "true" if (bo[0] == "==") != neg else "false"
+        return lab == holds_lab
+    return edge_ok
 
 
 def _guard_literals(fn, ret_bid, pname):
